@@ -29,3 +29,27 @@ def replay(model, obligation):
         if fut.is_schema_agreed is not True:
             fails.append('agreement reached with schema metadata disabled: is_schema_agreed = %r' % (fut.is_schema_agreed,))
     return {'reproduced': bool(fails), 'detail': '; '.join(fails[:3]) or 'no disagreement'}
+
+
+def replay_discounted(model, obligation):
+    """Real Cluster.on_down with down events discounted and one session that still has two open connections to the host."""
+    cl = rf.load_cluster()
+    import threading
+    from cassandra.pool import Host
+    from cassandra.policies import SimpleConvictionPolicy, HostDistance
+    told = []
+    host = Host('127.0.0.1', SimpleConvictionPolicy)
+    host.set_up()
+    c = cl.Cluster.__new__(cl.Cluster)
+    c.is_shutdown = False
+    c._discount_down_events = True
+    c.profile_manager = types.SimpleNamespace(distance=lambda h: HostDistance.LOCAL, on_down=lambda h: told.append('policies'))
+    c.control_connection = types.SimpleNamespace(on_down=lambda h: told.append('control'))
+    c.sessions = [types.SimpleNamespace(get_pool_state=lambda: {host: {'open_count': 2}}, on_down=lambda h: told.append('session'))]
+    c._listeners, c._listener_lock = set(), threading.Lock()
+    c._start_reconnector = lambda h, a: told.append('reconnector')
+    fn = getattr(cl.Cluster.on_down, '__wrapped__', None) or cl.Cluster.__dict__['on_down'].__wrapped__
+    fn(c, host, False)
+    bad = host.is_up is not True or bool(told)
+    return {'reproduced': bad, 'detail': 'DOWN signal for a host a session still has 2 open connections to (discounted): is_up=%r afterwards, told %r; a peer that still serves '
+            'requests but is marked down is left out of the schema-agreement question' % (host.is_up, told)}
